@@ -2,6 +2,7 @@ import GramModel.Check
 import GramModel.Props.C05
 import GramModel.Lemmas.StoreMono
 import GramModel.Lemmas.Whnf
+import GramModel.Lemmas.Fuel
 
 /-!
 # C12 — unification succeeds only with a consistent, well-scoped solution
@@ -68,3 +69,23 @@ example :
         { store := [none], dctx := [none] } with
      | .ok r s' => r == true && s'.store == [some (.var 2 0)] && s'.dctx == [none]
      | _ => false) = true := by decide
+
+/-! ## Scope of solutions -/
+
+/-- A recorded solution mentions only variables in scope where its hole was written: a cell with
+shift `k` is solved by `other` lowered by `k` binders, which exists only if no variable of `other`
+among the `k` innermost ones is used — so every free variable of the solution, raised back by `k`, is
+a free variable of `other` (hole-free `other`). -/
+def C12_solution_scoped_stmt : Prop :=
+  ∀ (other sol : Tm) (k : Nat), other.holeFree = true →
+    sshift 0 (-(k : Int)) other = some sol →
+    (∀ j, freeAt sol j = true → freeAt other (j + k) = true) ∧ (∀ j, j < k → freeAt other j = false) ∧
+    ushift 0 k sol = other
+theorem C12_solution_scoped : C12_solution_scoped_stmt :=
+  fun other sol k hf h => FuelLemmas.solution_scoped other sol k hf h
+
+/-- The inverse property alone holds for every term, holes included (a hole's shift is lowered like
+an index and raised back). -/
+def C12_shift_inverse_stmt : Prop :=
+  ∀ (t r : Tm) (c k : Nat), sshift c (-(k : Int)) t = some r → ushift c k r = t
+theorem C12_shift_inverse : C12_shift_inverse_stmt := FuelLemmas.ushift_of_sshift_neg
